@@ -1,0 +1,21 @@
+//go:build verif
+// +build verif
+
+package flowcontrols
+
+import (
+	"github.com/kubewharf/kubegateway/pkg/flowcontrols/remote"
+)
+
+// Verification hooks (build tag "verif"): thin exports only, no behaviour.
+
+// VerifSetLimiterType selects the local or remote limiter like ResetLimiter
+// does, but without starting or stopping the background reconcile loop.
+func VerifSetLimiterType(l UpstreamLimiter, rateLimiter string) {
+	l.(*upstreamLimiter).rateLimiter = rateLimiter
+}
+
+// VerifReconcile returns the reconciler of the limiter.
+func VerifReconcile(l UpstreamLimiter) remote.Reconcile {
+	return l.(*upstreamLimiter).reconcile
+}
